@@ -39,7 +39,22 @@ AffineInv(e) == \A a \in 1..N : \A b \in 1..N : \A L \in 0..e.taumax : Close(e.o
 Perm == <<3, 1, 2>>               \* series k of the reordered data set is series Perm[k]
 PermConsistent(e) == \A a \in 1..N : \A b \in 1..N : \A L \in 0..e.taumax :
    Close(e.obs.all_perm[a][b][L + 1], e.obs.all[Perm[a]][Perm[b]][L + 1], Tol)
+\* surrogate test matrices: original = the data (series as rows), surrogate j = twice series j+1 advanced
+\* by one step (so that the two arrays have different ranges)
+Orig(e, a) == [t \in 1..e.T |-> e.data[t][a]]
+Surr(e, b) == [t \in 1..e.T |-> 2 * e.data[(t % e.T) + 1][(b % N) + 1]]
+AllVals(e) == UNION {{Orig(e, a)[t] : t \in 1..e.T} \cup {Surr(e, a)[t] : t \in 1..e.T} : a \in 1..N}
+MinV(e) == CHOOSE v \in AllVals(e) : \A u \in AllVals(e) : v <= u
+MaxV(e) == CHOOSE v \in AllVals(e) : \A u \in AllVals(e) : v >= u
+TestPearsonDef(e) == \A a \in 1..N : \A b \in 1..N :
+   Close(e.obs.tpear[a][b], IF a = b THEN 0 ELSE MeanProduct6(Orig(e, a), Surr(e, b)), Tol)
+\* (bins are exact in floating point when the common range is a power of two: 1, 2 or 4 here)
+TestMIDef(e, key, nb) == (MaxV(e) - MinV(e)) \in {1, 2, 4} => \A a \in 1..N : \A b \in 1..N :
+   Close(e.obs[key][a][b], IF a = b THEN 0 ELSE BinnedMI6(Orig(e, a), Surr(e, b), MinV(e), MaxV(e), nb), Tol)
 Checks(e) == <<
+  <<"MeanProductDef|Surrogates.test_pearson_correlation", TestPearsonDef(e)>>,
+  <<"BinnedMIDef|Surrogates.test_mutual_information(2)", TestMIDef(e, "tmi2", 2)>>,
+  <<"BinnedMIDef|Surrogates.test_mutual_information(4)", TestMIDef(e, "tmi4", 4)>>,
   <<"CCDef|cross_correlation(all)", CCAllDef(e)>>, <<"CCDef|cross_correlation(max)", CCMaxDef(e)>>,
   <<"MaxIsAll|cross_correlation", MaxIsAll(e)>>, <<"SymDef|symmetrize_by_absmax", SymDef(e)>>,
   <<"Bounded|cross_correlation", Bounded(e)>>, <<"GaussMIDef|mutual_information(gauss)", GaussDef(e)>>,
